@@ -89,6 +89,7 @@ def should_fail(case) -> bool:
 
 
 class Scenarios(Family):
+    realtime = True     # runs on the wall clock (sockets, threads): a failure is re-run once before it counts (core.run_family)
     name = "scenarios"
     quick_n = 760
     thorough_n = 4000
